@@ -56,6 +56,8 @@ func execOp(s *exec.State, ev abs.V) {
 	switch ev["op"] {
 	case "reset":
 		s.Reset()
+	case "consts":
+		s.Constants()
 	case "scribble":
 		s.Scribble(h)
 	case "build":
